@@ -311,7 +311,7 @@ class Sim:
         if event == "line":
             if self.line_hook is not None:
                 self.line_hook(frame)
-            if self.rng.random() < self.line_p:
+            if self.rng.random() < self.line_p and not _lock_holder_on_stack(frame):
                 code = frame.f_code
                 self.point("line", (code.co_name, frame.f_lineno))
         return self._trace_line
@@ -415,6 +415,29 @@ class Sim:
             raise state["error"]
         self.event("get-done", gid)
         return nested_get(keys, cache)
+
+
+# Code that runs while a *real* lock is held (dask's global tokenize lock, the import
+# lock, numba's compile lock, logging handler locks, native locks inside pyarrow): parking a
+# logical task there would block the next task on that lock for ever while it holds the
+# baton.  A line of spatialpandas reached from inside such code is not a pre-emption point.
+_LOCKED = ("/dask/tokenize.py", "/numba/", "/pyarrow/", "/logging/", "importlib._bootstrap",
+           "<frozen importlib")
+
+
+def _lock_holder_on_stack(frame, limit=120):
+    f = frame.f_back
+    n = 0
+    while f is not None and n < limit:
+        fn = f.f_code.co_filename
+        for pat in _LOCKED:
+            if pat in fn:
+                return True
+        if fn.endswith("dsim/core.py") and f.f_code.co_name == "_thread_main":
+            return False
+        f = f.f_back
+        n += 1
+    return False
 
 
 def _key_text(k):
